@@ -163,23 +163,29 @@ Qed.
 
 (* ---------- completeness ---------- *)
 Lemma pstatus_no_trap O ps c au r :
-  (forall p, o_can O p c au r <> None) -> pstatus O ps c au r <> RTrap.
+  (forall p, In p ps -> o_can O p c au r <> None) -> pstatus O ps c au r <> RTrap.
 Proof.
   intros H. induction ps as [|p rest IH]; cbn [pstatus]; [discriminate|].
-  destruct (o_can O p c au r) as [[|]|] eqn:E; [exact IH|discriminate|exfalso; exact (H p E)].
+  destruct (o_can O p c au r) as [[|]|] eqn:E.
+  - apply IH. intros q Hq. apply H. right. exact Hq.
+  - discriminate.
+  - exfalso. exact (H p (or_introl eq_refl) E).
 Qed.
 
 Lemma rstatus_no_trap O c supplied r :
-  (forall p au, o_can O p c au r <> None) -> rstatus O c supplied r <> RTrap.
+  (forall p, In p (r_policies r) -> o_can O p c (auth_of r supplied) r <> None) -> rstatus O c supplied r <> RTrap.
 Proof.
   intros H. unfold rstatus. destruct (isnil (r_policies r)).
   - destruct (forallb _ _); discriminate.
-  - apply pstatus_no_trap. intros p. apply H.
+  - apply pstatus_no_trap. exact H.
 Qed.
 
 Theorem complete_reachable cfg calls O now auths sigs cs :
   let a := s_acct (run cfg init calls) in
-  (forall p c au r, o_can O p c au r <> None) ->
+  (* no can_enforce hook that the check can consult traps: those of the stored, applicable,
+     unexpired rules, on the contexts of the batch and the rule's own supplied signers *)
+  (forall c r p, In c cs -> In r (a_rules a) -> applicable c r -> not_expired now r -> In p (r_policies r) ->
+     o_can O p c (filter (fun s => mem_s s (map fst sigs)) (r_signers r)) r <> None) ->
   (forall x, In x sigs -> verified O auths x) ->
   (forall c, In c cs -> exists r,
      In r (a_rules a) /\ applicable c r /\ not_expired now r /\ requirement O c (map fst sigs) r) ->
@@ -192,14 +198,19 @@ Proof.
   set (supplied := map fst sigs) in *.
   (* every context has a validated choice *)
   assert (Hv : exists vs, Forall2 (validated O a now supplied) cs vs).
-  { induction cs as [|c rest IH]; [exists []; constructor|].
-    destruct IH as [vs Hvs]; [intros c' Hc'; apply Hex; right; exact Hc'|].
+  { clear Hs. induction cs as [|c rest IH]; [exists []; constructor|].
+    destruct IH as [vs Hvs]; [intros c' r' p' Hc'; apply Hnt; right; exact Hc'|intros c' Hc'; apply Hex; right; exact Hc'|].
     destruct (Hex c (or_introl eq_refl)) as [r [Hr [Ha [He Hq]]]].
     assert (Hin : In r (valid_list a now (ctx_type c))) by (apply In_valid_list; split; [exact Hr|split; [exact Ha|apply expired_false; exact He]]).
     destruct (first_decisive O c supplied (valid_list a now (ctx_type c))) as [h|] eqn:Ef.
     - destruct (first_decisive_split _ _ _ _ _ Ef) as [_ [_ [_ [_ Hn]]]].
       assert (Hsat : rstatus O c supplied h = RSat).
-      { pose proof (rstatus_no_trap O c supplied h (fun p au => Hnt p c au h)). destruct (rstatus O c supplied h); congruence. }
+      { assert (Hh : In h (valid_list a now (ctx_type c))).
+        { destruct (first_decisive_split _ _ _ _ _ Ef) as [pre [post [Esp _]]]. rewrite Esp. apply in_or_app. right. left. reflexivity. }
+        apply In_valid_list in Hh. destruct Hh as [Hh1 [Hh2 Hh3]].
+        pose proof (rstatus_no_trap O c supplied h
+          (fun p Hp => Hnt c h p (or_introl eq_refl) Hh1 Hh2 (proj1 (expired_false now h) Hh3) Hp)).
+        destruct (rstatus O c supplied h); congruence. }
       exists ((h, c, auth_of h supplied) :: vs). constructor; [|exact Hvs].
       cbn. split; [reflexivity|]. split; [reflexivity|]. exists (valid_list a now (ctx_type c)).
       split; [apply get_valid_context_rules_wf; exact W|]. auto.
